@@ -11,7 +11,7 @@ class _RL(dict):
 UNIT_RLIMIT = _RL({"div_small": 80, "mul_redc": 80})      # unit -> --rlimit (Verus default is 10; 5x head-room over the measured maximum)
 UNIT_TIMEOUT = {"knuth": 1500, "addmul": 900, "mul_redc": 1200}     # unit -> seconds
 UNIT_EXPECT = {       # unit -> minimum number of verified functions on the unchanged tree (vacuity guard)
-    "core": 31, "add": 29, "kernels": 79, "addmul": 71, "addmul_n": 73, "mul": 51, "divd": 45, "div_small": 235, "knuth": 145, "mul_redc": 126, "basics": 22, "pow": 38, "divw": 54, "modular": 70, "spigot": 44, "gcd": 24, "forward": 57, "invring": 47, "bitlen": 81, "shifts": 131, "recip_table": 2, "gcdext": 67, "gcdw": 36, "bits": 78, "conv": 53, "lehmer": 38, "jebelean": 92, "logs": 27, "forward_shift": 81, "fmt_consts": 5, "rotate": 27, "popcount": 29, "conv_slice": 54, "conv_prim": 53, "absdiff": 15, "frombase": 71, "byteslice": 72, "padlimbs": 45, "addnx1": 37, "sumprod": 26, "trailing": 55,
+    "core": 31, "add": 29, "kernels": 79, "addmul": 71, "addmul_n": 73, "mul": 51, "divd": 45, "div_small": 235, "knuth": 145, "mul_redc": 126, "basics": 22, "pow": 38, "divw": 54, "modular": 70, "spigot": 44, "gcd": 24, "forward": 57, "invring": 47, "bitlen": 81, "shifts": 131, "recip_table": 2, "gcdext": 67, "gcdw": 36, "bits": 78, "conv": 53, "lehmer": 38, "jebelean": 92, "logs": 27, "forward_shift": 81, "fmt_consts": 5, "rotate": 27, "popcount": 29, "conv_slice": 54, "conv_prim": 53, "absdiff": 15, "frombase": 71, "byteslice": 72, "padlimbs": 45, "addnx1": 37, "sumprod": 26, "trailing": 55, "cmpord": 39,
 }
 
 COMMON_TRUST = [
@@ -340,12 +340,12 @@ PROPS = {
     "C04": dict(
         level="proof",
         level_text="representation invariant as a postcondition: every Verus contract in the closure (constants, from_limbs*, masked/apply_mask, add/sub/neg, mul, pow, div wrappers, const_from_u64 ...) ensures r.wf() for ALL widths, "
-                   "and lemma_eq_iff_val shows limb equality <=> value equality; algorithms::cmp is proved to order equal-length slices as integers. Kani adds, per non-aligned width, the canonical-closure sweep over the "
+                   "and lemma_eq_iff_val shows limb equality <=> value equality; algorithms::cmp is proved to order equal-length slices as integers and unit cmpord proves that Ord::cmp / PartialOrd::partial_cmp of Uint return the ordering of the two values (so <, <=, >, >= follow the numbers). Kani adds, per non-aligned width, the canonical-closure sweep over the "
                    "public producers, ==, Hash (recording hasher), all comparison operators, min/max/clamp, and the rejecting constructors (None / panics for every non-canonical input)",
         level_note="the clause 'a Uint type with LIMBS != ceil(BITS/64) has no obtainable value' is a compile-time outcome (const-eval panic of Self::LIMBS) and cannot be expressed as a contract on a call: NOT decided "
                    "(the one hole found by reading, Uint::<64,2>::MAX, was repaired: fix 4621248); producers not swept: multi-limb division/modular/gcd/root/log results, rand generators; Ord/PartialOrd impls forward to the proved cmp (assumed forwarding)",
         technique="deductive contracts (Verus: wf as postcondition, cmp) + Kani canonical-closure sweep per width",
-        units=["core", "add", "kernels", "mul", "basics", "pow", "divw", "bits", "shifts", "conv_slice", "frombase", "byteslice"],
+        units=["core", "add", "kernels", "cmpord", "mul", "basics", "pow", "divw", "bits", "shifts", "conv_slice", "frombase", "byteslice"],
         kani=dict(features=None,
                   quick=hs("c04", r"_w(1|7|60|65)(_must_panic)?$", r"closure_(mul|pow|div|rem|checked_div|div_ceil|reduce_mod|add_mod)") + hs("c09", r"c09_from_(le|be)_w(8|65)_b(10|16|10p19)$"),
                   thorough=hs("c04") + hs("c09", r"c09_from_(le|be)_w(1|8|60|65)_"), timeout_thorough=5000,
